@@ -99,6 +99,7 @@ type tsys struct {
 	xmits    []xmit
 	nonce    uint32
 	stop     bool
+	hold     bool // the server actors do not look at their connections (answers are held back)
 	closeLeft int
 	dials    int
 	dialLog  []string
@@ -212,7 +213,7 @@ func (s *tsys) serve(cn *tConn) {
 	so := s.opt.Srv
 	for {
 		vs.Block("srv.wait", unsafe.Pointer(cn), func() bool {
-			return s.stop || cn.b.Pending() > 0 || cn.a.Closed() || len(cn.pending) > 0
+			return s.stop || cn.a.Closed() || (!s.hold && (cn.b.Pending() > 0 || len(cn.pending) > 0))
 		})
 		if s.stop || cn.a.Closed() {
 			return
@@ -341,6 +342,8 @@ func (s *tsys) serve(cn *tConn) {
 				cn.a.Deliver(runt)
 			} else if s.tcp {
 				cn.a.Deliver([]byte{0, 5, 1, 2, 3, 4, 5})
+			} else if vs.Choose(2) == 1 {
+				cn.a.Deliver([]byte{}) // an empty datagram
 			} else {
 				cn.a.Deliver([]byte{1, 2, 3, 4, 5})
 			}
